@@ -371,18 +371,25 @@ def _run_ws(ctx, case, res):
             v = WS_MESSAGES[mi]
             sent.append(v)
             asyncio.run_coroutine_threadsafe(conn["ws"].send(json.dumps(v)), srv.loop).result(20)
-        # quiescence: the handler log stops growing
-        last, stable = -1, 0
-        for _ in range(400):
-            if sum(1 for e in log if e[0] == "tick") >= len(sent) and (log and log[-1][0] == "val" or sent[-1] is None):
-                break
-            if len(log) == last:
-                stable += 1
-                if stable > 60:
-                    break
-            else:
-                last, stable = len(log), 0
+        # quiescence is decided by a marker message sent last: messages of one connection are handled in order, so once the
+        # marker has reached .ws.m every earlier message has been handled or dropped.  The wall-clock wait is only a watchdog.
+        END = "__verif_end_of_sequence__"
+        asyncio.run_coroutine_threadsafe(conn["ws"].send(json.dumps(END)), srv.loop).result(20)
+
+        def _is_end(e):
+            try:
+                return e[0] == "val" and isinstance(e[1], str) and e[1] == END
+            except Exception:
+                return False
+        t_end = time.time() + 60
+        while time.time() < t_end and not any(_is_end(e) for e in list(log)):
             time.sleep(0.01)
+        log = list(log)
+        cnt["ws_sequences_closed_by_marker"] = 1 if any(_is_end(e) for e in log) else 0
+        for i, e in enumerate(log):
+            if _is_end(e):
+                del log[i - 1 if i and log[i - 1][0] == "tick" else i:i + 1]
+                break
         # pair every invocation with the value it logged (if any)
         got = []
         for e in log:
@@ -420,7 +427,7 @@ def _run_ws(ctx, case, res):
                 text, py = WS_SEND[si]
                 n0 = len(received_by_server)
                 r = kl.ev(k, "c(%s)" % text)
-                for _ in range(300):
+                for _ in range(3000):
                     if len(received_by_server) > n0:
                         break
                     time.sleep(0.01)
